@@ -35,6 +35,9 @@
 (*    "closeun"  close() of a generator that was never started runs the     *)
 (*               body's prologue: a call/unw pair for an activation that    *)
 (*               never existed                                              *)
+(*    "cpdefx"   a cpdef function called from Python (only the root can be) *)
+(*               that is left by an exception: the C function and its       *)
+(*               Python wrapper both emit the end event                     *)
 (*                                                                          *)
 (* TLC: programs are BUILT by the actions AddRoot / AddDef / AddGen (one    *)
 (* function per step), Run evaluates the program, and the event sequence    *)
@@ -298,7 +301,8 @@ Exec(s, st, fr, ln) ==
 
 Run(P, fl) ==
   LET r == CallFn(1, [ev |-> <<>>, na |-> 0, cons |-> <<>>, closing |-> {}, unsup |-> FALSE, P |-> P, fl |-> fl])
-  IN [ev |-> r.st.ev, unsup |-> r.st.unsup, na |-> r.st.na,
+      dbl == "cpdefx" \in fl /\ P[1].k = "ccall" /\ r.sig.t = "raise"
+  IN [ev |-> IF dbl THEN Append(r.st.ev, r.st.ev[Len(r.st.ev)]) ELSE r.st.ev, unsup |-> r.st.unsup, na |-> r.st.na,
       out |-> IF r.sig.t = "raise" THEN r.sig.e ELSE "ok"]
 
 ---------------------------------------------------------------------------
@@ -327,7 +331,7 @@ VARIABLES phase,    \* "build" -> "walk" -> "done" | "skip" (outside the domain)
           bad       \* 0, or the index of the first event that did not meet its precondition
 vars == <<phase, fns, todo, evs, res, pos, stk, ska, susp, started, ended, bad>>
 
-NoRes == [out |-> "", ir |-> <<>>, ic |-> <<>>, ib |-> <<>>, cal |-> <<>>, sz |-> <<>>]
+NoRes == [out |-> "", hz |-> {}, iv |-> {}, cal |-> <<>>, sz |-> <<>>]
 
 Init == /\ phase = "build" /\ fns = <<>> /\ todo = <<[cls |-> "d", d |-> 1]>>
         /\ evs = <<>> /\ res = NoRes /\ pos = 0 /\ stk = <<>> /\ ska = <<>>
@@ -374,16 +378,13 @@ RunProg ==
   /\ phase = "build" /\ todo = <<>>
   /\ LET ref == Run(fns, {})
          pr  == Proj(ref.ev)
-         vr  == Proj(Run(fns, {"retstmt"}).ev)
-         vc  == Proj(Run(fns, {"closeun"}).ev)
-         vb  == Proj(Run(fns, {"retstmt", "closeun"}).ev)
+         \* hazards: the variants that change the visible stream of this program
+         hz  == {h \in {"retstmt", "closeun", "cpdefx"} : Proj(Run(fns, {h}).ev) # pr}
          amb == \E i \in 1..Len(fns) : Ambig(BodyOf(fns, i), FALSE, FALSE)
      IN /\ phase' = IF ref.unsup \/ amb THEN "skip" ELSE "walk"
         /\ evs' = ref.ev
-        /\ res' = [out |-> ref.out,
-                   ir |-> IF vr = pr THEN <<>> ELSE vr,
-                   ic |-> IF vc = pr THEN <<>> ELSE vc,
-                   ib |-> IF vb = pr THEN <<>> ELSE vb,
+        /\ res' = [out |-> ref.out, hz |-> hz,
+                   iv |-> {[fl |-> F, pj |-> Proj(Run(fns, F).ev)] : F \in (SUBSET hz) \ {{}}},
                    cal |-> Callees(fns), sz |-> Sizes(fns)]
   /\ UNCHANGED <<fns, todo, pos, stk, ska, susp, started, ended, bad>>
 
@@ -474,7 +475,7 @@ Publish == (Dump /\ phase = "done") =>
   PrintT("@@" \o ToJson([p |-> [i \in 1..Len(fns) |-> [k |-> fns[i].k, b |-> BodyOf(fns, i), ch |-> fns[i].ch,
                                                          n |-> Size(BodyOf(fns, i)), sk |-> fns[i].sk, at |-> fns[i].at]],
                           ev |-> [i \in 1..Len(evs) |-> EvOut(evs[i])],
-                          out |-> res.out, ir |-> res.ir, ic |-> res.ic, ib |-> res.ib,
+                          out |-> res.out, hz |-> res.hz, iv |-> res.iv,
                           cal |-> Cal, sz |-> Szs]))
 PublishSkip == (Dump /\ phase = "skip") => PrintT("@@" \o ToJson([skip |-> 1]))
 =============================================================================
